@@ -127,6 +127,9 @@ pub fn explore(run: &WrRun) -> Outcome {
     let mut nodes: Vec<Node> = vec![];
     let mut queue: VecDeque<u32> = VecDeque::new();
     let mut sigs: HashMap<String, u64> = HashMap::new();
+    // distinct MODEL states (pending bits at each depth): independent of the undefined bits of the
+    // real buffer, hence comparable across builds of the library
+    let mut model_seen: std::collections::HashSet<(u32, String)> = std::collections::HashSet::new();
     let rebuild = |ops: &[WOp]| -> Box<dyn Wr> {
         let mut w = make_rec_writer(run.e, wbits, run.wrapper);
         for op in ops {
@@ -205,6 +208,9 @@ pub fn explore(run: &WrRun) -> Outcome {
                 continue;
             }
             out.cov.observe(op.class(), fnv(format!("{:?}{}", obs, bits.len() % wbits).as_bytes()));
+            if depth >= 1 {
+                out.cov.nontrivial += 1;
+            }
             let mut verdict: Result<(), (String, String)> = Ok(());
             if obs != exp {
                 let sym = match &obs {
@@ -249,6 +255,7 @@ pub fn explore(run: &WrRun) -> Outcome {
             }
             match verdict {
                 Ok(()) => {
+                    model_seen.insert((depth as u32 + 1, new_pending.to_string01()));
                     let key = format!("{}|{}", w.key(), new_pending.to_string01());
                     if !seen.contains_key(&key) {
                         if run.max_states > 0 && nodes.len() >= run.max_states {
@@ -288,6 +295,7 @@ pub fn explore(run: &WrRun) -> Outcome {
     crate::watchdog::leave();
     out.cov.states += nodes.len() as u64;
     out.cov.traces_validated += out.cov.transitions;
+    out.cov.add_extra("writer_model_states", model_seen.len() as u64);
     out
 }
 
